@@ -10,7 +10,7 @@ R-C10-4  both recovering modes run the same recovery code: the mask push is cond
 from bpsa.facts import callee_decl, callee_name
 from bpsa.normal import canon
 from bpsa.terms import walk, short, TERM_IDX, mk_elem
-from .common import guard_table
+from .common import variants_under, guard_table
 from . import wire, msm, weights
 
 LEVEL_TEXT = ('Static non-interference analysis (backward dependence on reconstructed value terms + control dependence on MIR). Decides that '
@@ -140,6 +140,9 @@ def run(ctx):
                 allowed = 'RecoverOnly' in c and ((cond.tag == 'binop' and cond[1] == 'Eq' and arms == ('0',)) or (cond.tag == 'binop' and cond[1] == 'Ne' and arms == ('otherwise',)))
                 # or the match on the action itself that keeps VerifyOnly and recovering modes on the same continuation
                 is_match = cond.tag == 'discr'
+                # `action == VerifyOnly` / `!=` written as a comparison is the same selection as the match arm
+                if cond.tag == 'binop' and cond[1] in ('Eq', 'Ne') and 'VerifyOnly' in c and 'RecoverOnly' not in c:
+                    is_match = True
                 if not (allowed or is_match):
                     rep.violation('R-C10-2', 'R-C10-2/implicit/%s@%d' % (what, nsite), '%s depends on the action through %s (arms %s)' % (what, c, arms), ctx.where(v, bb))
                 if is_match and not allowed:
@@ -147,13 +150,13 @@ def run(ctx):
                     pass
     rep.check(True, 'R-C10-1', 'R-C10-1/implicit', 'none of the %d gate / accumulation sites is control-dependent on seed-derived data' % nsite, where=ctx.where(v))
     # every non-RecoverOnly mode reaches the accumulations: the only action-dependent skip compares with RecoverOnly
-    skips = []
+    reach = []
     for bb, what in sites[1:2] + sites[:1]:
-        for (sw, cond, arms, tg) in ctx.path_conditions(v, bb):
-            if has_action(cond, v, act) and cond.tag != 'discr':
-                skips.append(canon(cond))
-    rep.check(bool(skips) and all('RecoverOnly' in s for s in skips), 'R-C10-2', 'R-C10-2/only-recover-only-skips', 'the only mode that skips the verdict is RecoverOnly (%s)' % sorted(set(skips)),
-              'verdict is skipped under %s' % sorted(set(skips)), ctx.where(v))
+        vset, unknown = variants_under(ctx, v, ctx.path_conditions(v, bb), act)
+        reach.append((what, sorted(vset) if vset is not None else None, unknown))
+    rep.check(bool(reach) and all(vs is not None and not unk and {'VerifyOnly', 'RecoverAndVerify'} <= set(vs) for _, vs, unk in reach), 'R-C10-2', 'R-C10-2/only-recover-only-skips',
+              'the only mode that may skip the verdict is RecoverOnly: %s' % ['%s reached under %s' % (w, vs) for w, vs, _ in reach],
+              'a verifying mode skips the verdict: %s' % ['%s reached under %s%s' % (w, vs, (' (not understood: %s)' % unk) if unk else '') for w, vs, unk in reach], ctx.where(v))
 
     # ---- R-C10-4 same recovery code for both recovering modes
     rls = None
@@ -170,8 +173,8 @@ def run(ctx):
         rep.floor('R-C10-4', 'Some(mask) push sites', len(somes), 1)
         for e, val, dbb in somes:
             pcs = ctx.path_conditions(v, e['bb']) + (ctx.path_conditions(v, dbb) if dbb != e['bb'] else [])
-            conds = sorted({(canon(c), arms) for (sw, c, arms, tg) in pcs if has_action(c, v, act)})
-            rep.check(len(conds) == 1 and 'RecoverOnly' not in conds[0][0], 'R-C10-4', 'R-C10-4/same-code', 'the mask is computed under a single action test (not VerifyOnly), before the RecoverOnly test',
-                      'mask computation is conditioned on %s' % conds, ctx.where(v, e['bb']))
+            vset, unknown = variants_under(ctx, v, pcs, act)
+            rep.check(vset == {'RecoverAndVerify', 'RecoverOnly'} and not unknown, 'R-C10-4', 'R-C10-4/same-code', 'the mask is computed by the same code in both recovering modes (reached under exactly RecoverAndVerify and RecoverOnly)',
+                      'mask computation is reached under %s%s' % (sorted(vset) if vset is not None else None, (' (not understood: %s)' % unknown) if unknown else ''), ctx.where(v, e['bb']))
             rep.check(has_seed(val) and not has_action(val, v, act), 'R-C10-4', 'R-C10-4/mask-depends-on-seed-only', 'the recovered mask depends on the seed and not on the action',
                       'recovered mask: depends on seed=%s, on action=%s' % (has_seed(val), has_action(val, v, act)), ctx.where(v, e['bb']))
